@@ -85,6 +85,19 @@ func module(name, kind string, imps []string) string {
 			"fn r%s(v: i32) -> str ! i32 { if v < 0 { return \"neg-%s\"!; } return v + 1; }\n"+
 			"fn %s() -> i32 {\n    let p := { .X = %d, .Y = 2 } as P%s;\n    let q := { .A = \"alpha-%s\", .B = p } as Q%s;\n    p.bump();\n    let e := E%s::Green;\n    let n: i32 = 0;\n    match e { E%s::Red => { n = 1; } E%s::Green => { n = 2; } _ => { n = 3; } }\n    let s1 := \"beta-%s\";\n    let s2 := \"gamma-%s\";\n    let w := r%s(n) catch 0;\n    let t: struct { .U: i32, .V: i32 } = { .U = w, .V = 4 };\n    return p.X + t.U + (p.sum() as i32)%s;\n}\n",
 			name, name, name, name, name, name, name, name, name, fn, k, name, name, name, name, name, name, name, name, name, calls)
+	case "iface":
+		// two interfaces, three implementing types, five interface conversions: several vtables
+		// and type ids per module (tables the back end has to emit in some order)
+		fmt.Fprintf(&sb, "type Sh%s interface {\n    area() -> i32,\n};\ntype Nm%s interface {\n    tag() -> i32,\n};\n"+
+			"type Sq%s struct { .S: i32 };\ntype Rc%s struct { .W: i32, .H: i32 };\ntype Tr%s struct { .B: i32 };\n"+
+			"fn (s: Sq%s) area() -> i32 { return s.S * s.S; }\nfn (r: Rc%s) area() -> i32 { return r.W * r.H; }\nfn (t: Tr%s) area() -> i32 { return t.B; }\n"+
+			"fn (s: Sq%s) tag() -> i32 { return 1; }\nfn (r: Rc%s) tag() -> i32 { return 2; }\n"+
+			"fn tot%s(x: Sh%s) -> i32 { return x.area(); }\nfn wh%s(x: Nm%s) -> i32 { return x.tag(); }\n"+
+			"fn %s() -> i32 {\n    let va: Sq%s = { .S = %d };\n    let vb: Rc%s = { .W = 3, .H = 4 };\n    let vc: Tr%s = { .B = 7 };\n"+
+			"    let sa: Sh%s = va;\n    let sb: Sh%s = vb;\n    let sc: Sh%s = vc;\n    let na: Nm%s = va;\n    let nb: Nm%s = vb;\n"+
+			"    return tot%s(sa) + tot%s(sb) + tot%s(sc) + wh%s(na) + wh%s(nb)%s;\n}\n",
+			name, name, name, name, name, name, name, name, name, name, name, name, name, name,
+			fn, name, k, name, name, name, name, name, name, name, name, name, name, name, name, calls)
 	case "synb":
 		fmt.Fprintf(&sb, "fn %s() -> i32 {\n    return %d +%s;\n    let q := ) 3;\n}\n", fn, k, calls) // syntax errors on lines after the imports
 	default:
@@ -119,7 +132,7 @@ func (p *pspec) project() *sched.Project {
 	return &sched.Project{ID: p.id, Files: files, Entry: "main.fer"}
 }
 
-var wellFormed = map[string]bool{"plain": true, "lit1": true, "lit2": true, "anon": true, "cap3": true, "rich": true}
+var wellFormed = map[string]bool{"plain": true, "lit1": true, "lit2": true, "anon": true, "cap3": true, "rich": true, "iface": true}
 
 func mk(id string, quick bool, mods map[string]modspec) *pspec {
 	p := &pspec{id: id, mods: mods, quick: quick, ctl: true}
@@ -160,6 +173,12 @@ func projects() []*pspec {
 		p.one = true
 		ps = append(ps, p)
 	}
+	for _, pr := range [][2]string{{"plain", "iface"}, {"iface", "iface"}} {
+		p := mk(fmt.Sprintf("one(main=%s,a=%s)", pr[0], pr[1]), true, map[string]modspec{"main": ms(pr[0], "a"), "a": ms(pr[1])})
+		p.one = true
+		ps = append(ps, p)
+	}
+	ps = append(ps, mk("fork(a=iface,b=rich)", true, map[string]modspec{"main": ms("plain", "a", "b"), "a": ms("iface"), "b": ms("rich")}))
 	ps = append(ps, mk("fork(a=cap3,b=rich)", true, map[string]modspec{"main": ms("plain", "a", "b"), "a": ms("cap3"), "b": ms("rich")}))
 	// fork: main imports a and b
 	for i, ka := range kinds {
